@@ -7,6 +7,7 @@ stream.  `prov` is the property's own predicate and mentions no probability.  Fl
 -/
 import CambrianModel.Lemmas.CrossLemmas
 import CambrianModel.Lemmas.KeySelectLemmas
+import CambrianModel.Lemmas.CrossGenLemmas
 namespace Cambrian.Props
 open Cambrian
 
@@ -42,6 +43,27 @@ theorem C12_keys_refine (sp : PClass) (mn mx : Option Nat) (ps : List VNode) (or
     (hS : S.Perm (selectKeys mn mx ps order sel)) (hsorted : sortedNat S = true) :
     keysOk sp mn mx ps S = true :=
   selectKeys_keysOk sp mn mx ps order sel S hsp hne hshuffle hsel hsel1 hmx hb hS hsorted
+
+/-- The whole operator: every result of the ALGORITHM `crossGen` (the code-shaped model of `Crossover::crossover`: the
+    crossover decision, rank selection, per-key / per-option / per-presence recombination among the parents that share
+    the position, `select_anon_map_keys`) is accepted by `crossAcc`, for every consistent oracle. -/
+theorem C12_refine (o : CrossOracle) (cp sp : PClass) (hc : o.Consistent cp sp) (s : SNode) (p : Path)
+    (ps : List VNode) (hs : wf s = true) (hne : ps ≠ []) (hp : ∀ q ∈ ps, conf s q = true) :
+    crossAcc cp sp s ps (crossGen o s p ps) = true :=
+  crossGen_crossAcc o cp sp hc s p ps hs hne hp
+
+/-- Hence C12 holds of the algorithm itself: it invents nothing ... -/
+theorem C12_prov_alg (o : CrossOracle) (cp sp : PClass) (hc : o.Consistent cp sp) (s : SNode) (p : Path)
+    (ps : List VNode) (hs : wf s = true) (hne : ps ≠ []) (hp : ∀ q ∈ ps, conf s q = true) :
+    prov s ps (crossGen o s p ps) = true :=
+  crossAcc_prov cp sp s ps _ hs hp (crossGen_crossAcc o cp sp hc s p ps hs hne hp)
+
+/-- ... and identical parents give an identical offspring -/
+theorem C12_same_alg (o : CrossOracle) (cp sp : PClass) (hc : o.Consistent cp sp) (s : SNode) (p : Path)
+    (ps : List VNode) (q : VNode) (hs : wf s = true) (hne : ps ≠ []) (hall : ∀ x ∈ ps, x = q) (hq : conf s q = true) :
+    crossGen o s p ps = q :=
+  crossAcc_same cp sp s ps q _ hs hne hall hq
+    (crossGen_crossAcc o cp sp hc s p ps hs hne (fun x hx => by rw [hall x hx]; exact hq))
 
 /-- the algorithm on an example: minimum size 1 forces the first shuffled key although the selected (first) parent
     lacks it; key 9 is then dropped because the selected parent lacks it -/
